@@ -147,7 +147,8 @@ def r15_2(ctx, rep, roles):
     for cs in cg.callers_of(trig["id"]):
         rep.obligation(cs.caller == svv["id"], "C15/R15.2/trigger-caller/%s" % cs.caller, "Listeners::trigger_event is called from %s" % cs.caller,
                        where(fx.fns[cs.caller], cs.line), sample="trigger_event called from set_versioned_value only")
-    eng = sym.Engine(fx, no_inline=kv.listener_fns(fx))
+    # what is read back through the reference a vacant insert returns is the inserted value (the event may borrow the stored copy)
+    eng = sym.Engine(fx, no_inline=kv.listener_fns(fx), summaries=sym.SLOT_SUMMARIES)
     rows = eng.table(svv["id"], arg_terms={1: ("ptr", kv.SELF, ()), 2: ("obj", ("S", "key")), 3: ("obj", ("S", "upd"))})
     UPDV = ("proj", ("obj", ("S", "upd")), F(VV, "version"))
     n = 0
@@ -177,6 +178,12 @@ def r15_2(ctx, rep, roles):
             ok = ev[0] == "agg" and ev[1] == KCE
             if ok:
                 k, v, nd = T.field(ev, "key"), T.field(ev, "value"), T.field(ev, "node")
+                if v is not None and v[0] == "ptr" and v[1][0] == "D":
+                    # a borrow of the slot the update was just moved into: what it points to at the time of the call
+                    from .. import models as _m
+                    cur = eng.read_rp(_m._St(row.store), v[1], v[2])
+                    if cur is not None and any(s == ("obj", ("S", "upd")) for s in T.subterms(cur)):
+                        v = cur
                 ok = any(s == ("obj", ("S", "key")) for s in T.subterms(k)) and T.mentions_field(v, VV, "value") and any(
                     s == ("obj", ("S", "upd")) or (s[0] == "ptr" and s[1] == ("S", "upd")) for s in T.subterms(v)) and T.mentions_field(nd, NS, "chitchat_id")
             rep.obligation(ok, "C15/R15.2/event-content", "the event is %s" % sym.fmt(ev)[:120], where(svv), sample="event = (key, &update.value, &self.chitchat_id)")
